@@ -154,15 +154,22 @@ pub fn p_default<T: Default + serde::Serialize>(case: u64, probe: u64, site: &st
 }
 
 /// result of a builder run
-pub fn p_built<T: serde::Serialize, E: std::fmt::Display>(case: u64, probe: u64, r: Result<T, E>) {
+/// `fields`: the identifiers of the struct's fields; the event records which of them the
+/// error message names as whole words (strings are atomic for TLC)
+pub fn p_built<T: serde::Serialize, E: std::fmt::Display>(case: u64, probe: u64, r: Result<T, E>, fields: &[&str]) {
     match r {
         Ok(x) => {
             let w = serde_json::to_value(&x);
-            emit(json!({"ev": "builder", "case": case, "probe": probe, "ok": true, "msg": "",
+            emit(json!({"ev": "builder", "case": case, "probe": probe, "ok": true, "msg": "", "mentions": [],
                         "out": w.map(|w| tag(&w)).unwrap_or(tagged_na())}));
         }
-        Err(e) => emit(json!({"ev": "builder", "case": case, "probe": probe, "ok": false,
-                              "msg": e.to_string(), "out": tagged_na()})),
+        Err(e) => {
+            let msg = e.to_string();
+            let words: Vec<&str> = msg.split(|c: char| !(c.is_alphanumeric() || c == '_')).collect();
+            let mentions: Vec<&str> = fields.iter().copied().filter(|f| words.contains(f)).collect();
+            emit(json!({"ev": "builder", "case": case, "probe": probe, "ok": false,
+                        "msg": msg, "mentions": mentions, "out": tagged_na()}))
+        }
     }
 }
 
